@@ -199,19 +199,35 @@ func zzOperand(sv *zzsv.T, name string, decorate bool) *zzPT {
 		}
 		return t
 	}
-	switch sv.Choice("post", 3) {
+	post := sv.Choice("post", 3)
+	switch post {
 	case 1:
 		t = &zzPT{kind: "index", kids: []*zzPT{t, ptID("i")}}
 	case 2:
 		t = &zzPT{kind: "call", kids: []*zzPT{t, ptID("i")}}
 	}
-	switch sv.Choice("pre", 4) {
+	// one prefix operator, or two different ones: each applies to everything
+	// to its right (the operator written first is the outer one)
+	pre := func(op string, x *zzPT) *zzPT { return &zzPT{kind: "prefix", op: op, kids: []*zzPT{x}} }
+	npre := 8
+	if post != 0 {
+		npre = 4 // (pairs of prefix operators only on a plain operand: bounds the product)
+	}
+	switch sv.Choice("pre", npre) {
 	case 1:
-		t = &zzPT{kind: "prefix", op: "-", kids: []*zzPT{t}}
+		t = pre("-", t)
 	case 2:
-		t = &zzPT{kind: "prefix", op: "!", kids: []*zzPT{t}}
+		t = pre("!", t)
 	case 3:
-		t = &zzPT{kind: "prefix", op: "√", kids: []*zzPT{t}}
+		t = pre("√", t)
+	case 4:
+		t = pre("-", pre("√", t))
+	case 5:
+		t = pre("!", pre("-", t))
+	case 6:
+		t = pre("√", pre("-", t))
+	case 7:
+		t = pre("-", pre("!", pre("√", t)))
 	}
 	return t
 }
